@@ -347,10 +347,14 @@ Proof.
       - split; [|rewrite to_set_len; assumption].
         split; [apply to_set_nodup|]. split; [apply unprotected_existing_to_set; exact H2|].
         rewrite to_set_len; assumption. }
+    assert (Hnew3 : target i <= lenZ (free_cpus i) ->
+                    2 <= dedup_len (a_old i) + ceil_div (lenZ (a_procs i)) 10 -> 2 <= lenZ new).
+    { intros Hle H2'. destruct (Hnew2 Hle) as [_ Hl]. rewrite Hl. unfold target.
+      apply target_count_bounds. exact H2'. }
     destruct (a_static i) eqn:Es; cbn [adjust_holds]; rewrite Es.
-    + split; [exact Hnew1|]. split; [exact Hnew2|]. split; [reflexivity|].
+    + split; [exact Hnew1|]. split; [exact Hnew2|]. split; [exact Hnew3|]. split; [reflexivity|].
       right. apply unprotected_existing_to_set. apply recover_set_ok.
-    + split; [exact Hnew1|]. split; [exact Hnew2|]. split; reflexivity.
+    + split; [exact Hnew1|]. split; [exact Hnew2|]. split; [exact Hnew3|]. split; reflexivity.
   - (* no eligible cpu: nothing is written *)
     unfold be_cpuset in Ebe.
     destruct (lenZ (lsr_pool i) + lenZ (ls_pool i) =? 0) eqn:E0; [|discriminate].
@@ -358,7 +362,10 @@ Proof.
     cbn [adjust_holds]. split; [left; reflexivity|]. split.
     + intros Hle. rewrite Hold0 by lia. split; [|rewrite lenZ_nil; lia].
       split; [constructor|]. split; [intros c Hc; destruct Hc | rewrite lenZ_nil; lia].
-    + split; [reflexivity|]. destruct (a_static i); [left|]; reflexivity.
+    + split.
+      * intros Hle H2'. exfalso.
+        assert (2 <= target i) by (unfold target; apply target_count_bounds; exact H2'). lia.
+      * split; [reflexivity|]. destruct (a_static i); [left|]; reflexivity.
 Qed.
 
 (* totality on the degenerate input "no cpu is eligible": the files keep their contents *)
